@@ -824,7 +824,7 @@ func writeEvidence(prop, tier string, seed uint64, a *agg, b *build, wall, build
 		"foreign_divergences":   a.foreign,
 		"reported":              reported,
 		"code_fingerprint":      b.fp,
-		"rewrite":               map[string]int{"go_statements": b.info.GoStmts, "map_ranges": b.info.MapRanges, "imports": b.info.Imports},
+		"rewrite":               map[string]int{"go_statements": b.info.GoStmts, "map_ranges": b.info.MapRanges, "reflect_map_iterations": b.info.ReflectMaps, "imports": b.info.Imports},
 		"components_real":       []string{"package sod (rewritten copy of /repo's working tree)", "encoding/json", "compress/gzip", "reflect", "regexp", "context", "github.com/google/uuid"},
 		"components_simulated":  []string{"os/ioutil file system (simfs)", "time (discrete-event clock)", "sync (scheduler-owned locks)", "goroutine scheduling", "uuid randomness", "map iteration order"},
 		"build_s":               buildS,
